@@ -2,7 +2,8 @@ import MdkVerif.Model.Client
 import MdkVerif.Proofs.Client
 /-
   C08 — The stored group record always mirrors the MLS state.
-  `Inv c`: the record (epoch, name, admins) equals what the client's MLS state says, and the same holds
+  `Inv c`: the record (epoch, name, description, admins, relays, nostr group id) equals what the client's MLS
+  state says (`Synced`: every field `sync_group_metadata_from_mls` copies that the model tracks), and the same holds
   of every state saved in a rollback snapshot.  Proved for the initial state and preserved by EVERY
   operation of the client model (process_message in all branches incl. rollback and re-processing,
   create_message, the commit-staging operations, leave, merge/clear pending, restart), hence true
@@ -166,6 +167,11 @@ theorem inv_stageCommit (c : Cl) (n ts idn : Nat) (b : Body) (na : Bool) (h : In
   repeat' split
   all_goals first | exact h | exact ⟨synced_ensureSecret _ h.1, h.2⟩
 
+theorem inv_updateData (c : Cl) (n ts idn : Nat) (u : DataUpd) (h : Inv c) : Inv (updateData c n ts idn u).1 := by
+  unfold updateData
+  repeat' split
+  all_goals first | exact h | exact inv_stageCommit c n ts idn _ true h
+
 theorem inv_leave (c : Cl) (n ts idn : Nat) (h : Inv c) : Inv (leave c n ts idn).1 := by
   unfold leave
   split
@@ -199,6 +205,7 @@ inductive COp where
   | deliver (e : Ev) (nx : Nat)
   | send (n ts idn mid mts tok : Nat)
   | stage (n ts idn : Nat) (b : Body) (needAdmin : Bool)
+  | data (n ts idn : Nat) (u : DataUpd)
   | leave (n ts idn : Nat)
   | merge | clear | restart
 
@@ -206,6 +213,7 @@ def cstep (c : Cl) : COp → Cl
   | .deliver e nx => (deliver c e nx).1
   | .send n ts idn mid mts tok => (send c n ts idn mid mts tok).1
   | .stage n ts idn b na => (stageCommit c n ts idn b na).1
+  | .data n ts idn u => (updateData c n ts idn u).1
   | .leave n ts idn => (Client.leave c n ts idn).1
   | .merge => (merge c).1
   | .clear => (clear c).1
@@ -225,6 +233,7 @@ theorem sync_inv (id : Nat) (p : Bool) (r : Nat) (ms as : List Nat) (name : Nat)
       | deliver e nx => exact inv_deliverN 3 nx c e h
       | send n ts idn mid mts tok => exact inv_send c n ts idn mid mts tok h
       | stage n ts idn b na => exact inv_stageCommit c n ts idn b na h
+      | data n ts idn u => exact inv_updateData c n ts idn u h
       | leave n ts idn => exact inv_leave c n ts idn h
       | merge => exact inv_merge c h
       | clear => exact inv_clear c h
